@@ -22,7 +22,7 @@ RULE = (
     "FIFO and shuffled orders with withheld acks (the SignalStage message can be overtaken). (2) interleaving engine, "
     "pairs SignalStage x RunTask(returns suspend), SignalStage x StartStage(w), SignalStage x SignalStage. (1b) a gate that "
     "needs TWO persistent signals, sent before every pair of steps, with distinct and with identical name + payload: every "
-    "signal resumes the task exactly once. (3) crash "
+    "signal resumes the task exactly once; and SignalStage x StartStage pairs on that gate with one signal already buffered. (3) crash "
     "engine: every commit snapshot of the suspend/resume run resumed as a fresh worker. Oracles from the ledger of the "
     "suspending task and the audit log: a persistent signal's payload is seen by the task exactly once, the stage "
     "completes, the buffer is empty; without a signal the stage stays SUSPENDED durably; never more than one resume per "
@@ -60,6 +60,7 @@ def gen_cases(tier: str, seed: int) -> list[dict]:
                 cases.append({"kind": "pair", "pair": pair, "persistent": persistent, "chunk": c, "chunks": chunks, "seed": seed, "sample": 150 if tier == "quick" else 3000})
     for moment in ("before_start", "while_running", "after_suspend"):
         cases.append({"kind": "crash", "moment": moment, "seed": seed})
+    cases.append({"kind": "prebuffered", "seed": seed, "sample": 120 if tier == "quick" else 2500})
     for same in (False, True):
         for order in ("fifo", "random", "random_noack"):
             for rep in range(1 if tier == "quick" else 5):
@@ -204,6 +205,66 @@ def _multi(case: dict) -> dict:
     return {"violations": _uniq(violations), "obs": dict(obs), "keys": sorted(keys)}
 
 
+def _prebuffered(case: dict) -> dict:
+    """One persistent signal is already buffered on the (not yet started) two-signal gate when its StartStage
+    races a second persistent SignalStage: the second signal's write lands between the claim and the plan commit
+    in some schedules, and the plan has to keep BOTH entries of _buffered_signals."""
+    from ..world import World
+
+    spec = {"name": "suspend2", "confluent": True, "stages": [specs.st("a"), specs.st("w", ["a"], [{"kind": "suspend", "waits": 2, "out": ["w_o"]}]), specs.st("z", ["w"])]}
+    w = World()
+    cut = None
+    try:
+        w.submit(spec)
+        w.signal("w", "approve", {"id": "first"}, True)
+        for _ in range(200):
+            rows = w.rows()
+            if not rows:
+                break
+            wid = w.snapshot_state()["stages"]["w"]["id"]
+            sig = [r for r in rows if r["type"] == "SignalStage"]
+            if sig:
+                w.deliver(sig[0]["id"])  # buffered: w has not started
+                continue
+            tgt = [r for r in rows if r["type"] == "StartStage" and c04._stage_id_of(r) == wid]
+            if tgt:
+                w.signal("w", "approve", {"id": "second"}, True)
+                sig = [r for r in w.rows() if r["type"] == "SignalStage"]
+                path = os.path.join(il.env.scratch_dir(), f"cut-{os.getpid()}-{random.randrange(1 << 40)}.db")
+                w.copy_db(path)
+                cut = (path, [sig[0]["id"], tgt[0]["id"]])
+                break
+            w.deliver(w.eligible(rows)[0]["id"])
+    finally:
+        w.close()
+    obs: Counter = Counter()
+    keys: set = set()
+    violations = []
+    if cut is None:
+        return {"violations": [], "obs": {"cut_point_not_reached": 1}, "keys": []}
+    db, rows = cut
+    try:
+        na, nb = il.solo_length(db, rows[0]), il.solo_length(db, rows[1])
+        rng = random.Random(case["seed"] * 83)
+        for sc in il.bound_schedules(na, nb, 2, sample=case["sample"], rng=rng):
+            run, info = il.run_pair(db, rows, il.Segments(sc))
+            obs["evaluations"] += 1
+            if run is None:
+                obs["scheduler_watchdog"] += 1
+                continue
+            if info["switches"]:
+                obs["pair_schedules_with_switch"] += 1
+                keys.add(f"prebuffered:{info['trace_hash']}")
+            recs = [r for r in run.ledger if r["ref"] == "w"]
+            st_w = run.state["stages"]["w"]
+            buf = st_w["context"].get("_buffered_signals") or []
+            if not (run.state["wf"] == "SUCCEEDED" and st_w["status"] == "SUCCEEDED" and len(recs) == 3 and not buf):
+                violations.append(viol("C18/persistent-signal-lost:buffered-entry-dropped-by-the-plan-commit", f"signal 'first' was buffered before the stage started, 'second' raced its StartStage: task executed {len(recs)} times (expected 1 + 2 resumes), stage {st_w['status']}, workflow {run.state['wf']}, buffer {buf}; schedule {sc}"))
+    finally:
+        os.unlink(db)
+    return {"violations": _uniq(violations), "obs": dict(obs), "keys": sorted(keys)}
+
+
 def _cut(pair: str, persistent: bool):
     from ..world import World
 
@@ -330,6 +391,8 @@ def _uniq(vs: list[dict]) -> list[dict]:
 def run_case(case: dict) -> dict:
     if case.get("kind") == "multi":
         return _multi(case)
+    if case.get("kind") == "prebuffered":
+        return _prebuffered(case)
     if case["kind"] == "seq":
         return _seq(case)
     if case["kind"] == "pair":
